@@ -457,7 +457,7 @@ def impl_function(f, lang, qual=""):
         ct = c_type(r["T"], lang)
         lines.append("    long vfN = 1 + vf_out_len(%s);" % dr)
         if r.get("owner") == "caller":
-            lines.append("    %s *vfR = (%s *) malloc(vfN * sizeof(%s));   /* caller owns; released with free() */" % (ct, ct, ct))
+            lines.append("    %s *vfR = (%s *) malloc(vfN * sizeof(%s)); vf_own(vfR);   /* caller owns; released with free() */" % (ct, ct, ct))
         else:
             lines.append("    static %s *vfR = NULL;   /* library-owned buffer, allocated once, reused by every call */" % ct)
             lines.append("    if (vfR == NULL) vfR = (%s *) malloc(8 * sizeof(%s));" % (ct, ct))
@@ -466,7 +466,7 @@ def impl_function(f, lang, qual=""):
         lines.append("    vf_end();")
         lines.append("    return vfR;")
     elif r["kind"] == "str_ptr_own":
-        lines.append("    char vfb[64]; vf_out_str(vfb, 40, %s); std::string *vfR = new std::string(vfb); vf_log_s(\"ret\", vfR->data(), (long)vfR->size());" % dr)
+        lines.append("    char vfb[64]; vf_out_str(vfb, 40, %s); std::string *vfR = new std::string(vfb); vf_own(vfR); vf_log_s(\"ret\", vfR->data(), (long)vfR->size());" % dr)
         lines.append("    vf_end();")
         lines.append("    return vfR;")
     elif r["kind"] == "vec_val":
